@@ -36,6 +36,7 @@ let err_name (p : pattern) (e : err) : string = match e with
   | IsMarkedForDestruction -> "IsMarkedForDestruction" | ExceedsMaxNumberOfNodes -> "ExceedsMaxNumberOfNodes"
   | ServiceInCorruptedState -> "ServiceInCorruptedState" | SystemInFlux -> "SystemInFlux" | InternalFailure -> "InternalFailure"
   | IncompatibleAttributes -> "IncompatibleAttributes"
+  | UnableToAcquireTypeDefinition -> "UnableToAcquireTypeDefinition"
   | IncompatibleTypes -> (match p with ReqRes -> "IncompatibleRequestOrResponseType" | Blackboard -> "IncompatibleKeys" | _ -> "IncompatibleTypes")
   | SubscriberBufferMustBeLargerThanHistorySize -> "SubscriberBufferMustBeLargerThanHistorySize"
   | NoEntriesProvided -> "NoEntriesProvided"
@@ -89,16 +90,17 @@ let parse_pairs s = List.map (fun kv -> match String.split_on_char ':' kv with
   | [k; v] -> (n_of_int (int_of_string k), n_of_int (int_of_string v)) | _ -> failwith ("pair " ^ kv)) (split '+' s)
 
 let parse_req (p : pattern) (text : string) (ttok : string) : req =
-  let vals = ref [] and define = ref [] and require = ref [] and keys = ref [] and ne = ref false in
+  let vals = ref [] and define = ref [] and require = ref [] and keys = ref [] and ne = ref false and resfail = ref None in
   List.iter (fun part ->
     if part = "ne" then ne := true
+    else if part = "dk" then resfail := Some ServiceInCorruptedState
     else if part = "-" then ()
     else match String.index_opt part '=' with
       | None -> failwith ("requirement part " ^ part)
       | Some i ->
         let k = String.sub part 0 i and v = String.sub part (i + 1) (String.length part - i - 1) in
         (match k with
-         | "ty" -> ()
+         | "ty" -> if String.length v > 0 && v.[0] = '5' then resfail := Some UnableToAcquireTypeDefinition
          | "v" -> vals := List.map (fun x -> if x = "-" then None else Some (n_of_int (int_of_string x))) (String.split_on_char ',' v)
          | "at" -> define := parse_pairs v
          | "rq" -> require := parse_pairs v
@@ -108,13 +110,13 @@ let parse_req (p : pattern) (text : string) (ttok : string) : req =
   let nf = List.length (field_table p) in
   let vals = if !vals = [] then List.init nf (fun _ -> None) else !vals in
   { r_pat = p; r_sized = List.for_all (fun d -> int_of_n d.td_variant = 0) types; r_vals = vals; r_types = types;
-    r_define = !define; r_require = !require; r_keys = !keys; r_noentries = !ne }
+    r_define = !define; r_require = !require; r_keys = !keys; r_noentries = !ne; r_resfail = !resfail }
 
 let show_call = function
   | CAccess -> "access" | COpenRd -> "open" | COpenExcl -> "creat" | CFstat -> "fstat" | CRead -> "read" | CWrite -> "write"
   | CChmod -> "fchmod" | CStat -> "stat" | CShmOpen -> "shm_open" | CShmCreate -> "shm_creat" | CFtruncate -> "ftruncate"
   | CRemove -> "remove" | CShmUnlink -> "shm_unlink"
-let show_cres = function XOk -> "ok" | XEnoent -> "ENOENT" | XEexist -> "EEXIST" | XInit -> "init" | XFinal -> "final" | XZero -> "zero"
+let show_cres = function XFail -> "fail" | XOk -> "ok" | XEnoent -> "ENOENT" | XEexist -> "EEXIST" | XInit -> "init" | XFinal -> "final" | XZero -> "zero"
 
 let () =
   let nthreads = 8 in
@@ -122,7 +124,8 @@ let () =
   let sp = ref sp_init in
   let pat = ref PubSub and defs = ref [] and tticks = ref 2000 in
   let tnat = ref (nat_of_int 2000) in
-  let params () = { p_T = !tnat; p_defs = (fun _ -> !defs); p_recheck = true } in
+  let dynfault = ref false in
+  let params () = { p_T = !tnat; p_defs = (fun _ -> !defs); p_recheck = true; p_own_static = true; p_dynfault = !dynfault } in
   let case_no = ref 0 and op_no = ref 0 and ops_total = ref 0 in
   let mm_model = ref 0 and mm_spec = ref 0 in
   let cur_case = Buffer.create 256 and cur_nontrivial = ref false in
@@ -192,6 +195,7 @@ let () =
         pat := pat_of (get "pat");
         defs := List.map (fun x -> n_of_int (int_of_string x)) (split ',' (get "def"));
         tticks := (try int_of_string (get "T") with _ -> 2000); tnat := nat_of_int !tticks;
+        dynfault := (try get "fault" = "dyn" with _ -> false);
         Buffer.add_string cur_case (get "pat" ^ " " ^ get "def" ^ "|");
         ignore svc
       | "O" :: rest when not !dead ->
@@ -258,8 +262,14 @@ let () =
         if ex <> "" && mex <> ex then begin mismatch "model" line ("ex=" ^ mex) ("ex=" ^ ex); dead := true end;
         let sex = if sp_exists !sp then "1" else "0" in
         if ex <> "" && sex <> ex then mismatch "spec" line ("ex=" ^ sex) ("ex=" ^ ex);
+        let liv = (try List.assoc "li" sfx with Not_found -> "") in
+        if liv <> "" && liv <> mex then begin mismatch "model" line ("li=" ^ mex) ("li=" ^ liv); dead := true end;
+        if liv <> "" && liv <> sex then mismatch "spec" line ("li=" ^ sex) ("li=" ^ liv);
         let lsv = (try List.assoc "ls" sfx with Not_found -> "-") in
-        if lsv <> "-" && lsv <> listing_text () then begin mismatch "model" line ("ls=" ^ listing_text ()) ("ls=" ^ lsv); dead := true end
+        (* a "-" component was not observed *)
+        let ls_eq a b = (match String.split_on_char ',' a, String.split_on_char ',' b with
+          | [a1; a2; a3], [b1; b2; b3] -> a1 = b1 && (b2 = "-" || a2 = b2) && a3 = b3 | _ -> a = b) in
+        if lsv <> "-" && not (ls_eq (listing_text ()) lsv) then begin mismatch "model" line ("ls=" ^ listing_text ()) ("ls=" ^ lsv); dead := true end
       | "O" :: _ -> incr op_no; incr ops_total
       (* ---------------- G2 ---------------- *)
       | "S" :: node :: rest when not !dead ->
@@ -310,7 +320,7 @@ let () =
         let x0 = { i_cfg = c0; i_owner = O; i_st = SFinal; i_dy = DFinal; i_dy_linked = true; i_res = false;
                    i_locked = false; i_gen = S O; i_members = [] } in
         let g0 = { g_init with insts = [x0]; cur = Some O } in
-        let pr = { p_T = O; p_defs = (fun _ -> []); p_recheck = (try get "recheck" <> "0" with _ -> true) } in
+        let pr = { p_T = O; p_defs = (fun _ -> []); p_recheck = (try get "recheck" <> "0" with _ -> true); p_own_static = true; p_dynfault = false } in
         let outcomes = Hashtbl.create 16 in
         let idle l = (match l.at_pc with Idle -> true | _ -> false) in
         let rec go depth (g : gst) (ls : lst array) (rem : string list array) (res : string list array) =
